@@ -14,7 +14,89 @@ schedules on the real code are a sample).
 from lib import vlib
 from lib.vlib import cbool, clist
 
+import os
+import re
+
 ID = "C28"
+GEN = os.path.join(vlib.COQ, "C28", "Gen.v")
+
+
+class Untranslatable(Exception):
+    pass
+
+
+def _block(text, start):
+    """text[start] == '{': index just after the matching '}' (comments and strings of this file hold no braces
+    except in comments, which are removed beforehand)"""
+    depth = 0
+    for i in range(start, len(text)):
+        if text[i] == "{":
+            depth += 1
+        elif text[i] == "}":
+            depth -= 1
+            if depth == 0:
+                return i + 1
+    raise Untranslatable("unbalanced braces")
+
+
+def translate_gen():
+    """where does _cffi_start_python switch _cffi_call_python to the fast path?"""
+    src = open(os.path.join(vlib.REPO, "src", "cffi", "_embedding.h")).read()
+    m = re.search(r"static _cffi_call_python_fnptr _cffi_start_python\(void\)\s*\{", src)
+    if not m:
+        raise Untranslatable("_cffi_start_python not found")
+    body = src[m.end() - 1:_block(src, m.end() - 1)]
+    body = re.sub(r"/\*.*?\*/", " ", body, flags=re.S)
+    sw = [x.start() for x in re.finditer(r"_cffi_call_python\s*=\s*\(_cffi_call_python_fnptr\)\s*_cffi_call_python_org\s*;", body)]
+    if len(sw) != 1:
+        raise Untranslatable("%d assignments to _cffi_call_python" % len(sw))
+    sw = sw[0]
+    c = re.search(r"if\s*\(\s*!called\s*\)\s*\{", body)
+    rel = re.search(r"_cffi_release_reentrant_mutex\(\)\s*;", body)
+    if not c or not rel:
+        raise Untranslatable("'if (!called)' block or the mutex release not found")
+    cend = _block(body, c.end() - 1)
+    if c.end() <= sw < cend:
+        ok = re.search(r"if\s*\(\s*_cffi_initialize_python\(\)\s*==\s*0\s*\)\s*\{", body[c.end():cend])
+        if not ok:
+            raise Untranslatable("success branch of _cffi_initialize_python() not found")
+        ostart = c.end() + ok.end() - 1
+        if not (ostart <= sw < _block(body, ostart)):
+            raise Untranslatable("the switch is inside 'if (!called)' but outside the success branch")
+        inside = True
+        what = 'inside "if (!called) { ... if (_cffi_initialize_python() == 0) { HERE } }"'
+    elif cend <= sw < rel.start():
+        g = re.search(r"if\s*\(\s*_cffi_call_python_org\s*!=\s*NULL\s*\)\s*\{", body[cend:rel.start()])
+        if not g or not (cend + g.end() - 1 <= sw < _block(body, cend + g.end() - 1)):
+            raise Untranslatable("the switch follows the 'if (!called)' block without the expected guard")
+        inside = False
+        what = 'after the "if (!called)" block, under "if (_cffi_call_python_org != NULL)", before the mutex release'
+    else:
+        raise Untranslatable("the switch is neither in the success branch nor between the block and the release")
+    return ("""(* C28/Gen.v — REGENERATED on every run by tools/props/c28.py:regen from
+     /repo/src/cffi/_embedding.h   (_cffi_start_python: where "_cffi_call_python = ... _cffi_call_python_org"
+                                    stands relative to the "if (!called)" block and its success branch)
+   Do not edit: this committed copy is the snapshot used when the translator fails. *)
+
+(* the switch to the fast path is %s *)
+Definition gen_switch_in_success : bool := %s.
+""" % (what, "true" if inside else "false"))
+
+
+def regen(ctx):
+    try:
+        text = translate_gen()
+    except (Untranslatable, OSError) as e:
+        ctx.translator("C28/Gen.v", "fallback: %s" % e)
+        return
+    old = open(GEN).read() if os.path.exists(GEN) else None
+    if old == text:
+        ctx.translator("C28/Gen.v", "unchanged")
+    else:
+        with vlib.CoqLock():
+            with open(GEN, "w") as f:
+                f.write(text)
+        ctx.translator("C28/Gen.v", "regenerated")
 
 
 def go(t, k, c="COk"):
@@ -81,6 +163,18 @@ def scenarios(ctx):
                     drv=dict(main="", threads=["c0:1", "d800,c0:2"], mode0="pre+post"),
                     scheds=[[(0, 0)] + go(0, 13) + [(0, 0)] + go(0, 12) + [(0, 0)] + go(0, 12) + go(0, 21)
                             + [(1, 0)] + go(1, 30)], n=2))
+    # a recursive call from the init code (function already attached), then the init code fails:
+    # later calls must return the zeroed result
+    out.append(dict(name="recursion-then-fail",
+                    drv=dict(main="", threads=["c0:1,c0:5"], mode0="post+fail"),
+                    scheds=[[(0, 0)] + go(0, 13) + [(0, 0)] + go(0, 12) + go(0, 21, "CFail")
+                            + [(0, 0)] + go(0, 30, "CFail")], n=1))
+    # a recursive call from the init code, then a second thread makes its first call while the init
+    # code is still running: it must wait
+    out.append(dict(name="recursion-then-waiter",
+                    drv=dict(main="w9,p5,d300,p10", threads=["c0:1", "w5,c0:2"], mode0="post+sync2"),
+                    scheds=[[(0, 0)] + go(0, 13) + [(0, 0)] + go(0, 12) + [(1, 0)] + go(1, 20) + go(0, 21)
+                            + go(1, 20)], n=2))
     out.append(dict(name="two-libraries",
                     drv=dict(main="", threads=["b,c0:1", "b,c1:2"]),
                     scheds=[random_fair(rng, [[0], [1]]) for _ in range(ctx.n(3, 10))], n=2))
@@ -127,6 +221,7 @@ def analyse(events, nlibs=2):
                     early = True
                     bad.append("thread %d ran the extern function of library %d before its initialization finished" % (t, k))
                 if fail and fail[0] < i:
+                    early = True
                     bad.append("extern function of library %d ran after its initialization failed" % k)
         res = [(i, t, e.split()) for i, (t, e) in enumerate(events) if e.startswith("RES %d " % k)]
         zeros = 0
